@@ -49,7 +49,25 @@ func mutate(r *prng.Rand, data []byte, spans []refcodec.Span, foreign []byte) ([
 		return &spans[cand[r.Intn(len(cand))]]
 	}
 	for try := 0; try < 8; try++ {
-		switch r.Intn(13) {
+		switch r.Intn(14) {
+		case 13: // EVERY length prefix of a message or union collapses to (next to) nothing:
+			// records that claim to be empty but are followed by what was their content
+			n := 0
+			small := uint32(r.Intn(3))
+			for _, sp := range spans {
+				if sp.Kind == refcodec.SBodyLen || sp.Kind == refcodec.SUnionLen {
+					v := small
+					if r.Chance(1, 4) {
+						v = uint32(r.Intn(9))
+					}
+					out[sp.Start], out[sp.Start+1], out[sp.Start+2], out[sp.Start+3] = byte(v), 0, 0, 0
+					n++
+				}
+			}
+			if n == 0 {
+				continue
+			}
+			return out, fmt.Sprintf("lengths-collapse:%d", n)
 		case 12: // a scalar becomes a special bit pattern: NaN (quiet, signalling, negative), infinities, -0, all ones
 			var cand []int
 			for i, sp := range spans {
